@@ -462,6 +462,17 @@ func (r *concRewriter) stmts(list []ast.Stmt) []ast.Stmt {
 				}
 			}
 		}
+		// `v := <-c` / `v, ok := <-c` / `v = <-c`: wait for the receive to be possible, then let the statement
+		// itself receive natively (no scheduling point in between)
+		if as, ok := s.(*ast.AssignStmt); ok && !r.yieldOnly && !r.skip[s] && !r.native[s] && len(as.Rhs) == 1 {
+			if u, ok := as.Rhs[0].(*ast.UnaryExpr); ok && u.Op == token.ARROW {
+				out = append(out, &ast.ExprStmt{X: &ast.CallExpr{Fun: sel("verifvchan", "WaitRecv"), Args: []ast.Expr{u.X}}}, s)
+				r.skip[u] = true
+				r.usedChan, r.changed = true, true
+				r.st.Recvs++
+				continue
+			}
+		}
 		if ls, ok := s.(*ast.LabeledStmt); ok {
 			if rs := r.stmt(ls.Stmt); rs != nil {
 				ls.Stmt = rs
